@@ -9,8 +9,10 @@ use serde_json::{Value as J, json};
 use std::rc::Rc;
 
 const RULE: &str = "core-Ink programs generated as ASTs (knots with parameters, stitches, forward diverts, weave \
-choices and gathers nested to depth 2 with once-only / sticky / conditional / fallback / labelled forms and \
-start[choice-only]end text, inline and block conditionals, stopping / cycle / once-only sequences, VAR and temp \
+choices and gathers nested to depth 3 with once-only / sticky / conditional (one or several conditions) / fallback / \
+labelled forms and start[choice-only]end text that may hold inline conditionals, sequences and printed values, \
+inline conditionals and sequences nested in one another, block conditionals, switch blocks, multi-line sequence \
+blocks, stopping / cycle / once-only sequences, forward diverts to knots, stitches and labelled gathers, VAR and temp \
 int / bool / string arithmetic, read counts of knots, stitches and labels, TURNS_SINCE, TURNS, CHOICE_COUNT, tunnels, \
 functions with return values, text and ref parameters, threads, glue, tags, inline diverts, -> DONE), printed in \
 canonical layout, compiled by the tree under test and played along every choice path (depth-first, bounded depth, \
